@@ -118,6 +118,8 @@ theorem nfInv_setBefore {e : Expr} (h : e.nfInv) {b : List Trivia} (hb : Alt b) 
   | list v m inn b' a => exact ⟨h.1, h.2.1, hb, h.2.2.2⟩
   | set v m r inn b' a => exact ⟨h.1, h.2.1, hb, h.2.2.2⟩
   | binding n v g b' a => exact ⟨h.1, h.2.1, h.2.2.1, hb, h.2.2.2.2⟩
+  | paren => exact h.elim
+  | app => exact h.elim
 
 theorem nfInv_addAfter {e : Expr} (h : e.nfInv) (hc : closedT (e.effAfter false)) {ts : List Trivia} (hts : Alt ts) :
     (e.addAfter ts).nfInv := by
@@ -130,6 +132,8 @@ theorem nfInv_addAfter {e : Expr} (h : e.nfInv) (hc : closedT (e.effAfter false)
     show Alt (v.after ++ (a ++ ts))
     rw [← List.append_assoc]
     exact alt_append_closed h.2.2.2.2.1 hc hts
+  | paren => exact h.elim
+  | app => exact h.elim
 
 theorem closedT_append {a b : List Trivia} (ha : closedT a) (hb : closedT b) : closedT (a ++ b) := by
   rcases hb with h | ⟨c, hc⟩
@@ -420,6 +424,7 @@ theorem parseSeq_prev : (its : Items) → ∀ (m : Mode) (st st' : SeqSt), its.p
       cases m with
       | set => cases hp
       | file => simp only at hp; exact parseSeq_prev rest _ _ st' hp (Or.inr (by simp))
+      | paren => simp only at hp; exact parseSeq_prev rest _ _ st' hp (Or.inr (by simp))
       | list => simp only at hp; exact parseSeq_prev rest _ _ st' hp (Or.inr (by simp))
   | .bind g n c1 g1 c2 g2 v c3 g3 rest, m, st, st', hp, _ => by
     simp only [Items.parseSeq] at hp
@@ -430,6 +435,7 @@ theorem parseSeq_prev : (its : Items) → ∀ (m : Mode) (st st' : SeqSt), its.p
       cases m with
       | file => cases hp
       | list => cases hp
+      | paren => cases hp
       | set =>
         simp only at hp
         cases hb : bindingFromCst n c1 c2 g2 ve c3 (pushGap st g) with
@@ -442,51 +448,54 @@ theorem parseSeq_prev_of_content (its : Items) (m : Mode) (st st' : SeqSt) (hp :
     (h : its.isNil = false) : st'.prev ≠ .none := parseSeq_prev its m st st' hp (Or.inl h)
 
 mutual
-theorem cst_nf : (c : Cst) → c.wf = true → ∀ (e : Expr), c.parse = .ok e →
+theorem cst_nf : (c : Cst) → c.wf = true → c.basic = true → ∀ (e : Expr), c.parse = .ok e →
     e.nfInv ∧ e.before = [] ∧ e.after = [] ∧ e.notBinding = true
-  | .leaf k t, hwf, e, hp => by
+  | .paren .., _, hbs, _, _ => by simp [Cst.basic] at hbs
+  | .app .., _, hbs, _, _ => by simp [Cst.basic] at hbs
+  | .leaf k t, hwf, _, e, hp => by
     have hspec := leaf_spec (k := k) (t := t) hwf
     simp only [Cst.parse] at hp
     rw [hspec.1] at hp; injection hp with hp; subst hp
     exact ⟨⟨leafOk_ne_semi hwf, trivial, trivial⟩, rfl, rfl, rfl⟩
-  | .list its cg, hwf, e, hp => by
+  | .list its cg, hwf, hbs, e, hp => by
     simp only [Cst.wf, Bool.and_eq_true] at hwf
     simp only [Cst.parse] at hp
     cases hps : its.parseSeq .list { before := openBefore its } with
     | error err => rw [hps] at hp; cases hp
     | ok st' =>
       rw [hps] at hp; injection hp with hp; subst hp
-      have hst := items_nf its .list cg _ st' hwf.1 hps (stN_init its)
+      have hst := items_nf its .list cg _ st' hwf.1 (by simpa [Cst.basic] using hbs) hps (stN_init its)
       have hf := finishSeq_nf hst (some cg) (!its.isNil) (fun h =>
         parseSeq_prev_of_content its _ _ st' hps (by simpa using h))
       exact ⟨⟨hf.1, alt_emptyInner hf.2.2.1 _, trivial, trivial, hf.2.1⟩, rfl, rfl, rfl⟩
-  | .set isRec rg its cg, hwf, e, hp => by
+  | .set isRec rg its cg, hwf, hbs, e, hp => by
     simp only [Cst.wf, Bool.and_eq_true] at hwf
     simp only [Cst.parse] at hp
     cases hps : its.parseSeq .set { before := openBefore its } with
     | error err => rw [hps] at hp; cases hp
     | ok st' =>
       rw [hps] at hp; injection hp with hp; subst hp
-      have hst := items_nf its .set cg _ st' hwf.1.2 hps (stN_init its)
+      have hst := items_nf its .set cg _ st' hwf.1.2 (by simpa [Cst.basic] using hbs) hps (stN_init its)
       have hf := finishSeq_nf hst (some cg) (!its.isNil) (fun h =>
         parseSeq_prev_of_content its _ _ st' hps (by simpa using h))
       exact ⟨⟨hf.1, alt_emptyInner hf.2.2.1 _, trivial, trivial, hf.2.1⟩, rfl, rfl, rfl⟩
 theorem items_nf : (its : Items) → ∀ (m : Mode) (cg : Text) (st st' : SeqSt), its.wf m cg = true →
-    its.parseSeq m st = .ok st' → StN st → StN st'
-  | .nil, m, cg, st, st', _, hp, h => by
+    its.basic = true → its.parseSeq m st = .ok st' → StN st → StN st'
+  | .nil, m, cg, st, st', _, _, hp, h => by
     simp only [Items.parseSeq] at hp; injection hp with hp; subst hp; exact h
-  | .cmt g t rest, m, cg, st, st', hwf, hp, h => by
+  | .cmt g t rest, m, cg, st, st', hwf, hbs, hp, h => by
     simp only [Items.wf, Bool.and_eq_true] at hwf
     simp only [Items.parseSeq] at hp
-    exact items_nf rest m cg _ st' hwf.2 hp (seqComment_nf m h g t)
-  | .elem g c rest, m, cg, st, st', hwf, hp, h => by
+    exact items_nf rest m cg _ st' hwf.2 (by simpa [Items.basic] using hbs) hp (seqComment_nf m h g t)
+  | .elem g c rest, m, cg, st, st', hwf, hbs, hp, h => by
     simp only [Items.wf, Bool.and_eq_true] at hwf
+    simp only [Items.basic, Bool.and_eq_true] at hbs
     simp only [Items.parseSeq] at hp
     cases hpe : c.parse with
     | error err => rw [hpe] at hp; cases hp
     | ok e =>
       rw [hpe] at hp
-      obtain ⟨hen, heb, hea, henb⟩ := cst_nf c hwf.1.2 e hpe
+      obtain ⟨hen, heb, hea, henb⟩ := cst_nf c hwf.1.2 hbs.1 e hpe
       have hnew : ∀ e', e' = e.setBefore (pushGap st g) →
           StN { items := st.items ++ [e'], before := [], prev := .item } := by
         intro e' he'; subst he'
@@ -497,11 +506,15 @@ theorem items_nf : (its : Items) → ∀ (m : Mode) (cg : Text) (st st' : SeqSt)
       | set => cases hp
       | file =>
         simp only at hp
-        exact items_nf rest .file cg _ st' hwf.2 hp (hnew _ (by rw [heb, List.append_nil]))
+        exact items_nf rest .file cg _ st' hwf.2 hbs.2 hp (hnew _ (by rw [heb, List.append_nil]))
+      | paren =>
+        simp only at hp
+        exact items_nf rest .paren cg _ st' hwf.2 hbs.2 hp (hnew _ (by rw [heb, List.append_nil]))
       | list =>
         simp only at hp
-        exact items_nf rest .list cg _ st' hwf.2 hp (hnew _ rfl)
-  | .bind g n c1 g1 c2 g2 v c3 g3 rest, m, cg, st, st', hwf, hp, h => by
+        exact items_nf rest .list cg _ st' hwf.2 hbs.2 hp (hnew _ rfl)
+  | .bind g n c1 g1 c2 g2 v c3 g3 rest, m, cg, st, st', hwf, hbs, hp, h => by
+    simp only [Items.basic, Bool.and_eq_true] at hbs
     simp only [Items.wf, Bool.and_eq_true, beq_iff_eq] at hwf
     obtain ⟨⟨⟨⟨⟨⟨⟨⟨⟨⟨hm, _⟩, hn⟩, _⟩, _⟩, _⟩, _⟩, hv⟩, _⟩, _⟩, hrest⟩ := hwf
     subst hm
@@ -510,13 +523,13 @@ theorem items_nf : (its : Items) → ∀ (m : Mode) (cg : Text) (st st' : SeqSt)
     | error err => rw [hpv] at hp; cases hp
     | ok ve =>
       rw [hpv] at hp; simp only at hp
-      obtain ⟨hven, hvb, hva, hvnb⟩ := cst_nf v hv ve hpv
+      obtain ⟨hven, hvb, hva, hvnb⟩ := cst_nf v hv hbs.1 ve hpv
       cases hb : bindingFromCst n c1 c2 g2 ve c3 (pushGap st g) with
       | error err => rw [hb] at hp; cases hp
       | ok b =>
         rw [hb] at hp; simp only at hp
         have hbn := binding_nf hn hb hven hvb hva hvnb (pushGap_alt h g)
-        exact items_nf rest .set cg _ st' hrest hp
+        exact items_nf rest .set cg _ st' hrest hbs.2 hp
           ⟨allNfInv_append h.1 ⟨hbn.1, trivial⟩, allClosed_append h.2.1 ⟨hbn.2, trivial⟩, trivial,
             fun _ => closedT_nil, fun e => by cases e⟩
 end
@@ -591,7 +604,9 @@ theorem items_head : (its : Items) → ∀ (cg : Text) (st st' : SeqSt), its.wf 
     | error err => rw [hpe] at hp; cases hp
     | ok e =>
       rw [hpe] at hp; simp only at hp
-      have heb := (cst_nf c hwf.1.2 e hpe).2.1
+      have heb : e.before = [] := by
+        obtain ⟨e', hpe', _, heb', _, _⟩ := cst_parse_spec false c hwf.1.2 (fun h => by cases h)
+        rw [hpe] at hpe'; injection hpe' with h'; subst h'; exact heb'
       refine items_head rest cg _ st' hwf.2 hp ⟨fun he => by simp at he, ?_⟩
       by_cases hi : st.items = []
       · rw [hi]
@@ -664,7 +679,7 @@ theorem srcRebuildP_nf (s : Src) (e : Expr) (he : s.exprs = [e]) (hok : e.ok) (h
     rw [summ_append, hr, summ_ws]; rfl
 
 /-- SPACING NORMAL FORM of the whole round trip -/
-theorem file_nf (f : File) (s : Src) (hwf : f.wf = true) (hp : f.parse = .ok s)
+theorem file_nf (f : File) (s : Src) (hwf : f.wf = true) (hbasic : f.basic = true) (hp : f.parse = .ok s)
     (hclean : ∀ e ∈ s.exprs, e.inlineClean) : (summ s.rebuildP).fileOk = true := by
   obtain ⟨s', hp', hok, _⟩ := file_parse_spec false f hwf (fun h => by cases h)
   rw [hp] at hp'; injection hp' with hs; subst hs
@@ -676,8 +691,8 @@ theorem file_nf (f : File) (s : Src) (hwf : f.wf = true) (hp : f.parse = .ok s)
   | ok st' =>
     rw [hps] at hp
     injection hp with hp
-    have hcount := items_parse_count f.items .file {} st' hps rfl
-    have hst : StN st' := items_nf f.items .file f.endGap {} st' hwf'.1.1 hps
+    have hcount := items_parse_count f.items .file {} st' hps (Or.inl rfl)
+    have hst : StN st' := items_nf f.items .file f.endGap {} st' hwf'.1.1 hbasic hps
       ⟨trivial, trivial, trivial, fun h => absurd rfl h, fun _ => ⟨Or.inl rfl, rfl⟩⟩
     have hhd : HeadInv st' := items_head f.items f.endGap {} st' hwf'.1.1 hps
       ⟨fun _ => Or.inl ⟨rfl, rfl⟩, trivial⟩
